@@ -553,6 +553,27 @@ def _register(case, res):
         o3 = lib.eval_formula('=%s("xyzzy")' % name)[0]
         if o3 != ('E', '#VALUE!'):
             res.fail('registered:nonnumeric', ('E', '#VALUE!'), o3, name)
+        # the SAME model, evaluated once, then the name is registered again
+        # with another implementation: an evaluator created afterwards over
+        # that model must see the new function
+        try:
+            m = lib.compile_dict({'Sheet1!A1': '=%s(1)' % name,
+                                  'Sheet1!A2': '=A1*2'})
+            first = lib.evaluate(m, 'Sheet1!A2', xl.Evaluator(m))
+
+            def impl2(num: xl.XlNumber) -> xl.XlNumber:
+                return num + n + 100
+            impl2.__name__ = name
+            xl.register()(xlmod.validate_args(impl2))
+            second = lib.evaluate(m, 'Sheet1!A2', xl.Evaluator(m))
+            if first != ('N', 2.0 * (1 + n)) or second != (
+                    'N', 2.0 * (1 + n + 100)):
+                res.fail('registered:re-registration-not-seen',
+                         [('N', 2.0 * (1 + n)), ('N', 2.0 * (101 + n))],
+                         [first, second], name)
+        except Exception as err:  # noqa: BLE001
+            res.fail('registered:re-registration-exception', 'values',
+                     exc_tag(err), name)
         del f
     finally:
         xl.FUNCTIONS.pop(name, None)
